@@ -259,8 +259,36 @@ def registry():
     return reg
 
 
+def exact_registry():
+    """C08 / C13 clear path: PKCS8.wrap builds the PrivateKeyInfo of RFC 5208 5 (version 0, AlgorithmIdentifier with the given parameters or
+    none, OCTET STRING) and unwrap(wrap(k, oid, params)) == (oid, k, params) with NULL parameters reported as None -- over the EXACT abstract
+    DER codec of contracts/der_exact.py (assumed asn1 round trip)."""
+    from .key_common import key_base_registry
+    from . import der_exact
+    reg = key_base_registry()
+    der_exact.install_der_exact(reg)
+    OIDS = "enum('1.2.840.113549.1.1.1','1.2.840.10045.2.1','1.3.101.112')"
+    P = 'spec.der_abs.'
+    algo = ('(%sseq1(%soid_enc(key_oid.encode("latin-1"))) if kind == "none" else %sseq2(%soid_enc(key_oid.encode("latin-1")), '
+            '(%snull_enc() if kind == "null" else %soid_enc(b"1.2.840.10045.3.1.7"))))' % (P, P, P, P, P, P))
+    reg.add(Contract('spec.keys_harness.pkcs8_clear_roundtrip', params={'private_key': 'bytes', 'key_oid': OIDS, 'kind': "enum('null','none','oid')"},
+                     raises={},
+                     ensures={'oid': 'result[0] == key_oid', 'key': 'result[1] == private_key',
+                              'params': 'result[2] == (%soid_enc(b"1.2.840.10045.3.1.7") if kind == "oid" else None)' % P, 'triple': 'len(result) == 3'},
+                     modifies=[], inline=[P8 + 'wrap', P8 + 'unwrap']))      # both directions are executed from the real source
+    reg.add(Contract(P8 + 'wrap', params={'private_key': 'bytes', 'key_oid': OIDS, 'passphrase': 'none', 'protection': 'none', 'prot_params': 'none',
+                                         'key_params': 'obj:absx.DerNull|none', 'randfunc': 'none'},
+                     raises={}, result='bytes',
+                     ensures={'rfc5208_5': 'result == %sseq3(%sint_enc(0), (%sseq1(%soid_enc(key_oid.encode("latin-1"))) if key_params is None else '
+                                           '%sseq2(%soid_enc(key_oid.encode("latin-1")), %snull_enc())), %soctet_enc(private_key))' % ((P,) * 8)},
+                     modifies=[]))
+    return reg
+
+
 def units(prop, tier):
     from vf.pyunit import pyvc_unit
+    if prop == 'C08':
+        return [pyvc_unit(prop, 'pkcs8.clear.roundtrip', exact_registry, [P8 + 'wrap', 'spec.keys_harness.pkcs8_clear_roundtrip'])]
     if prop == 'C13':
         return [pyvc_unit(prop, 'pbes.total.pbes1', registry, [PB + 'PBES1.decrypt']),
                 pyvc_unit(prop, 'pbes.total.pbes2', registry, [PB + 'PBES2.decrypt'], weight=3),
@@ -268,3 +296,19 @@ def units(prop, tier):
                 pyvc_unit(prop, 'spki.total', registry, ['Crypto.PublicKey._expand_subject_public_key_info',
                                                          'Crypto.PublicKey._extract_subject_public_key_info'])]
     return []
+
+
+# ======================================================================================================================================
+# Vacuity / strength checks (C13 --only pkcs8. / pbes. / spki.; C08 --only pkcs8.clear):
+#   PublicKey/__init__.py `if len(tbs_certificate) < 7:` -> `< 6` (= defect F1 back)   exit 1  _extract_subject_public_key_info.raises_only.IndexError
+#   PKCS8.py `if len(pk_info) not in (3, 4):` -> `(2, 3, 4)`                           exit 1  unwrap.raises_only.IndexError
+#   PKCS8.py PBES2 handler `except (ValueError, IndexError, TypeError)` -> without IndexError   exit 1  unwrap.raises_only.IndexError
+#   _PBES.py a `1 // (len(pbe_params) - 2)` inserted after the decode                  exit 1  PBES1.decrypt.raises_only.ZeroDivisionError
+#   PKCS8.py `.payload` -> `.payload[1:]` in unwrap                                    exit 1  pkcs8_clear_roundtrip.ensures.key (9 shapes, native replay confirmed)
+#   PKCS8.py version `0` -> `1` in wrap                                                exit 1  wrap.ensures.rfc5208_5
+# (violations on paths that depend on the weak collaborators are reported 'no failing input': the choices of the abstract DER / KDF models are not inputs)
+#
+# NOT PROVED: PBES2.encrypt / decrypt parameter symmetry (P1: needs the exact codec extended by DerInteger-in-sequence append order, the regex on `protection`
+#             and the cipher / KDF abstractions with values); PBES1/PBES2 decrypt VALUES (only their exception sets); wrap with a passphrase; the PEM layer.
+# Weak collaborator contracts (assumed): KDFs, Hash.new, cipher factories and objects (may raise ValueError / TypeError for any input): a real collaborator
+#             that raises anything else breaks the conclusion -- that was finding F2 (scrypt r == 0 -> ZeroDivisionError), repaired in 6fef62b2.
